@@ -43,7 +43,8 @@ type subInst struct {
 
 const inf = int64(1) << 62
 
-// RouterScenario explores one router with 2-3 connections. params: sc, buflen, k (R6 reads).
+// RouterScenario explores one router with 2-3 connections. params: sc, buflen, k (R6 reads),
+// think (1: a scheduling point before every message a writer script sends).
 func RouterScenario(h *vsched.H) {
 	sc := h.Param("sc", 0)
 	buflen := h.Param("buflen", 1)
@@ -55,8 +56,10 @@ func RouterScenario(h *vsched.H) {
 	all := []*mocrelay.ReqFilter{{}}
 	e1, e2 := Ev('a', '1', 1, 10), Ev('b', '1', 7, 20)
 	var conns []*Conn
+	think := h.Param("think", 0) == 1
 	newConn := func(name string) *Conn {
 		c := NewConn(h, name, bg, router)
+		c.Think = think
 		conns = append(conns, c)
 		return c
 	}
